@@ -82,21 +82,27 @@ def own_overlap(base, target):
 
 
 def greedy_margin(a):
-    """smallest gap between the largest and second largest live entry over the rounds of the greedy
-    elimination (own simulation; used only to discard near-tie cases), and the smallest maximum"""
+    """own simulation of the elimination, used only to discard near-tie cases.  Returns (gap, low):
+    gap = smallest distance, over the rounds, between the live maximum and a *conflicting* entry (same row or
+    same column) - two near-equal maxima in different rows and columns may be taken in either order without
+    changing the assignment; low = smallest live maximum (a maximum near 0 ties with the zeroed entries)."""
     a = numpy.array(a, dtype=float)
     n = a.shape[0]
     gap, low = math.inf, math.inf
     for _ in range(n):
-        flat = a.ravel()
-        k = int(numpy.argmax(flat))
-        top = flat[k]
-        rest = numpy.delete(flat, k)
-        second = rest.max() if rest.size else 0.0
-        # entries already zeroed compete as 0: a live maximum close to 0 is a tie with them
-        gap = min(gap, top - second)
-        low = min(low, top)
+        k = int(numpy.argmax(a))
         i, j = divmod(k, n)
+        top = a[i, j]
+        low = min(low, top)
+        near = numpy.argwhere(a >= top - 2 * TIE_EPS)
+        for (p, q) in near:
+            for (r, s) in near:
+                if (p, q) != (r, s) and (p == r or q == s):
+                    gap = min(gap, abs(a[p, q] - a[r, s]))
+        row = numpy.delete(a[i, :], j)
+        col = numpy.delete(a[:, j], i)
+        if row.size:
+            gap = min(gap, top - row.max(), top - col.max())
         a[i, :] = 0
         a[:, j] = 0
     return gap, low
@@ -668,7 +674,7 @@ def run(ctx):
         if c["kind"] != "mismatch":
             gap, low = greedy_margin(own_overlap(c["base"], c["target"]))
             c["gap"], c["low"] = gap, low
-            if gap < TIE_EPS:
+            if gap < TIE_EPS or low < TIE_EPS:
                 n_tie += 1
                 ctx.count("evec_sort discarded: within 1e-9 of an argmax tie")
                 sort_oracle(ctx, c) if c["kind"] == "planted" else None
@@ -758,6 +764,9 @@ def run(ctx):
     if sh_lines and sh_lines[-1] == "":
         sh_lines = sh_lines[:-1]
     sh_lines = [l.rstrip("\r") for l in sh_lines]
+    sh_body = list(sh_lines)            # for the re-print comparison: without trailing blank lines
+    while sh_body and not sh_body[-1].strip():
+        sh_body.pop()
     res_sh, err_sh = observe_load(EL.evec_load, shipped, 2, 60)
     if res_sh is not None and not structurally_valid(res_sh):
         res_sh, err_sh = None, "malformed-result"
@@ -791,7 +800,7 @@ def run(ctx):
     f = write(rd / "cases_load_any.v", MATDYN_HEADER + "Definition cases := [\n" + ";\n".join(any_body)
               + "].\nEval vm_compute in (failing any_ok cases).\n"
               + "Definition shipped := [(%s, 2, 60)].\nEval vm_compute in (failing reprint_ok shipped).\n"
-              % file_lit(sh_lines))
+              % file_lit(sh_body))
     shard_files.append(f)
     shard_meta[f] = ("load", any_meta)
     f = write(rd / "cases_regex.v", MATDYN_HEADER
